@@ -15,6 +15,10 @@ class Unresolvable(Exception):
     pass
 
 
+class Unspecified(Exception):
+    """The documentation does not say what happens here; callers skip the case."""
+
+
 class PatchFail(Exception):
     """The RFC says this operation is an error."""
 
@@ -91,6 +95,8 @@ def _add(doc, tokens, value, mode="add"):
             parent.insert(int(t), value)
             return doc
         if mode == "addap":
+            if not CANON_INDEX.match(t):
+                raise Unspecified("addap with a non-index token against an array")
             parent.append(value)
             return doc
         raise PatchFail("index %r out of range or not canonical" % t)
@@ -164,7 +170,11 @@ def apply_op(doc, op):
 def apply_patch(doc, ops):
     """Returns the patched document (the argument is not modified)."""
     cur = copy.deepcopy(doc)
-    for op in ops:
+    for i, op in enumerate(ops):
+        if isinstance(cur, str) and i > 0:
+            # the API reads a str document as JSON text; a string that became the root
+            # mid-patch is ambiguous between the two readings
+            raise Unspecified("string root value in the middle of a patch")
         cur = apply_op(cur, op)
     return cur
 
